@@ -7,7 +7,8 @@ HARNESS = os.path.join(ROOT, "harness")
 CACHE = os.path.join(ROOT, ".cache")
 TARGET = os.path.join(CACHE, "target")
 HX = os.path.join(TARGET, "release", "hx")
-STYLUA = os.path.join(TARGET, "release", "stylua")
+TARGET_CLI = os.path.join(CACHE, "target-cli")  # a separate workspace must not share a target dir
+STYLUA = os.path.join(TARGET_CLI, "release", "stylua")
 MODELD = os.path.join(LEAN, ".lake", "build", "bin", "modeld")
 EVID = os.path.join(ROOT, "evidence")
 REPLAY = os.path.join(ROOT, "replay")
@@ -74,9 +75,11 @@ def cargo_build_hx():
 
 
 def cargo_build_cli():
-    with Lock("cargo"):
+    e = env_offline()
+    e["CARGO_TARGET_DIR"] = TARGET_CLI
+    with Lock("cargo-cli"):
         rc, out = sh(["cargo", "build", "--release", "--offline", "--manifest-path", os.path.join(REPO, "Cargo.toml"),
-                      "--bin", "stylua", "--features", FEATURES], cwd=HARNESS, env=env_offline(), timeout=3000)
+                      "--bin", "stylua", "--features", FEATURES], cwd=REPO, env=e, timeout=3000)
     return rc == 0, out
 
 
